@@ -9,6 +9,8 @@
 package c15
 
 import (
+	"sort"
+	banktypes "github.com/cosmos/cosmos-sdk/x/bank/types"
 	"bytes"
 	"fmt"
 	"math/big"
@@ -514,6 +516,25 @@ func aggregateProposals(r *ev.Run, h *c07.Host, max int) (evals, nontrivial int6
 		p.EnableAggregate = false
 		k.SetParams(ctx, p)
 	})
+	// bank metadata already stored for a base denomination (genesis, or an earlier proposal for the same base that was
+	// still in its voting period when this one was submitted), with more / fewer denomination units than the proposal lists
+	for _, nm := range []string{"ccoin", "Coin C"} {
+		nm := nm
+		states["bank metadata of ccoin ("+nm+") stored with three units"] = mk(func(ctx sdk.Context) {
+			world.DeployERC20From(h.C, ctx, deployer, "ext")
+			world.DeployERC20From(h.C, ctx, deployer, "ext")
+			m := c13.Meta("ccoin", nm)
+			m.DenomUnits = append(m.DenomUnits, &banktypes.DenomUnit{Denom: "kccoin", Exponent: 9})
+			h.C.App.BankKeeper.SetDenomMetaData(ctx, m)
+		})
+		states["bank metadata of ccoin ("+nm+") stored with one unit"] = mk(func(ctx sdk.Context) {
+			world.DeployERC20From(h.C, ctx, deployer, "ext")
+			world.DeployERC20From(h.C, ctx, deployer, "ext")
+			m := c13.Meta("ccoin", nm)
+			m.DenomUnits = m.DenomUnits[:1]
+			h.C.App.BankKeeper.SetDenomMetaData(ctx, m)
+		})
+	}
 	addrs := map[string]string{"external erc20": erc.Hex(), "second erc20": erc2.Hex(), "module-owned token": modTok.Hex(), "an account without code": deployer.Hex(),
 		"the zero address": common.Address{}.Hex(), "the packet contract": "0x0000000000000000000000000000000020000001", "not hex": "zz", "short hex": "0x1234"}
 	var contents []content
@@ -559,6 +580,7 @@ func aggregateProposals(r *ev.Run, h *c07.Host, max int) (evals, nontrivial int6
 	for n := range states {
 		names = append(names, n)
 	}
+	sort.Strings(names)
 	for _, c := range contents {
 		if !validateBasic(c.c) {
 			r.Outcome("aggregate proposal refused by stateless validation")
